@@ -101,6 +101,24 @@ def run(ctx):
                             "proxy_headers": {k: env[k] for k in P.PROXY_KEYS if k in env}, "verdict": "no influence"})
     ctx.oblige("S-tworun: real middleware, untrusted peer: environ with the proxy headers == environ without them (off the six keys), metadata unchanged, cleared when clearing is on", two_ok)
 
+    # ---- histories: many requests through the SAME middleware instance, logging of removed headers on
+    nh, hm, tw = P.history_stream(runner, rng, 40 if quick else 600, 12, "untrusted")
+    evaluations += nh
+    for env, cfg, r, m, pos in hm[:10]:
+        d = P.describe(env, cfg)
+        d.update({"kind": "history", "position": pos, "expected": P.res_json(m), "observed": P.res_json(r),
+                  "failing_input_found": True, "log_untrusted": True,
+                  "note": "reproduces as a repeated request through ONE middleware instance (state kept between requests)"})
+        ctx.report("history:" + P.case_key(env, cfg)[:12], "the middleware's answer depends on earlier requests (request %d of an instance): implementation %s ; model %s" % (pos, P.short(r), P.short(m)), d)
+    for env, cfg, fails, pos in tw[:10]:
+        if any(k in env for k in P.PROXY_KEYS):
+            nontrivial.add("hist" + P.case_key(env, cfg))
+        d = P.describe(env, cfg)
+        d.update({"kind": "history", "position": pos, "expected": "no influence", "observed": fails[:4],
+                  "failing_input_found": True, "log_untrusted": True})
+        ctx.report("history-tworun:" + fails[0][:50], "untrusted peer influences the environ on request %d of a middleware instance: %s" % (pos, fails[0]), d)
+    ctx.oblige("K-proxy/history: every request of a history through one middleware instance (log_untrusted on) equals the stateless model, and the two-run statement holds on each", not hm and not tw, "%d requests" % nh)
+
     # ---- the install condition and the wrapper built by the real server constructor
     inst_ok = True
     n_inst = 0
@@ -221,11 +239,29 @@ def run(ctx):
         "server_configurations_built": n_inst,
         "server_configurations_refused_by_adjustments": refused,
         "end_to_end_requests": n_e2e,
+        "history_requests": nh,
         "primitive_cases": nprim,
     })
 
 
 def replay(data):
+    if data.get("kind") == "history":
+        # the same request several times through one middleware instance
+        env = P.env_from_json(data["environ_hex"])
+        cfg = P.cfg_from_json(data["config"])
+        inst = P.RealMiddleware(cfg, log_untrusted=True)
+        first = inst.run(env)
+        bad = 0
+        for i in range(1, 6):
+            r = inst.run(env)
+            if P.canon(r) != P.canon(first):
+                print("request %d differs from request 0: %s vs %s" % (i, P.short(r), P.short(first)))
+                bad = 1
+            if P.c15_tworun_eval(env, cfg, runner_fn=inst.run) and "REMOTE_ADDR" in env and not P.is_trusted_path(env, cfg):
+                print("two-run statement fails on request %d" % i)
+                bad = 1
+        print("config=%s headers=%r -> %s" % (data["config"], data.get("proxy_headers"), "still fails" if bad else "holds now"))
+        return bad
     if data.get("kind") == "e2e":
         kw = dict(data["server_kw"])
         if "trusted_proxy_headers" in kw:
